@@ -244,6 +244,11 @@ int main(void) {
   SG(size_t); SG(ptrdiff_t); SG(wchar_t); SG(bool);
   VI(true); VI(false); VI(__bool_true_false_are_defined); VI(__alignas_is_defined); VI(__alignof_is_defined); VI(sizeof(NULL)); VI(offsetof(struct with_max, m)); VI(offsetof(struct with_max, d));
   VI(offsetof(struct with_va, v)); VI(offsetof(struct with_flag, l)); VI(sizeof(offsetof(struct with_va, v))); VI(alignof(max_align_t)); VI(sizeof(true)); VI((size_t)-1 > 0); VI(sizeof((char *)0 - (char *)0));
+  { int n = 3, m = 2; VI(_Alignof(char[n][m])); VI(_Alignof(long double[m][n])); VI(_Alignof(short[n])); VI(_Alignof(int[2][n])); VI(_Alignof(char[n][m][n])); VI(sizeof(char[n][m])); char v3[n][m][n]; VI(_Alignof(v3)); VI(_Alignof(v3[0])); }
+  { enum e1 { e1a = -1, e1b }; enum e2 { e2a, e2b }; enum e3 { e3a = -2 }; enum e4 { e4a = 1, e4b = -1 }; enum e5 { e5a = -1 }; enum e6 { e6a, e6b = -1, e6c };
+    struct { enum e1 a : 2; enum e2 b : 2; enum e3 c : 3; enum e4 d : 2; enum e5 e : 1; enum e6 f : 2; } eb = { -1, 3, -2, -1, -1, -1 };
+    VI((enum e1)-1 < 0); VI((enum e2)-1 < 0); VI((enum e3)-1 < 0); VI((enum e4)-1 < 0); VI((enum e5)-1 < 0); VI((enum e6)-1 < 0); VI(eb.a); VI(eb.b); VI(eb.c); VI(eb.d); VI(eb.e); VI(eb.f);
+    enum e1 v1 = e1a; enum e5 v5 = e5a; enum e6 v6 = e6b; VI((long)v1); VI((long)v5); VI((long)v6); VI(sizeof(enum e1)); VI(_Alignof(enum e3)); }
   VI(memory_order_relaxed); VI(memory_order_consume); VI(memory_order_acquire); VI(memory_order_release); VI(memory_order_acq_rel); VI(memory_order_seq_cst);
   return 0;
 }
